@@ -154,6 +154,9 @@ def putLoop {D : Type} [DecidableEq D] (H : Bytes → D) (d : D) (f : Bytes) (of
 inductive ChunkResp where
   | fail (e : ErrClass)
   | body (pieces : List Bytes) (fin : BodyEnd)
+  /-- 301/302/303/307/308 with `Location`: net/http follows (the request is a body-less GET); the
+      chunk goroutine does not notice, the same request is waiting again (fewer than 10 hops) -/
+  | redirect
 deriving Repr
 
 /-- answer to a chunksums GET: the request fails, or the entries the scanner delivered before
@@ -270,6 +273,7 @@ def advance (v : Variant) (limit : Option Nat) : Run D → List (Op D) → Run D
 /-- the chunk goroutine after the registry answered -/
 def applyTask (H : Bytes → D) (v : Variant) (st : Run D) (t : Task D) : ChunkResp → Run D
   | .fail e => { st with firstErr := orElse st.firstErr e }
+  | .redirect => st
   | .body pieces fin =>
     if t.prevalid then { st with cache := st.cache.setMarker t.key }
     else
@@ -284,6 +288,10 @@ def applyTask (H : Bytes → D) (v : Variant) (st : Run D) (t : Task D) : ChunkR
     all, and the pieces delivered before the silence do not complete the chunk) -/
 def stalls (t : Task D) : ChunkResp → Bool
   | .body pieces .stall => !t.prevalid && decide (pieces.flatten.length < t.cs.len)
+  | _ => false
+
+def isRedirect : ChunkResp → Bool
+  | .redirect => true
   | _ => false
 
 /-- a move of the adversary at a quiescent point: answer the `k`-th waiting chunk request
@@ -302,6 +310,7 @@ def step (H : Bytes → D) (v : Variant) (limit : Option Nat) (st : Run D) : Ste
     match st.inflight[k]? with
     | none => none
     | some t =>
+      if isRedirect r then some st else
       let st1 := applyTask H v { st with inflight := st.inflight.eraseIdx k } t r
       -- a body that stalls keeps the registry silent for `ReadTimeout`: the requests still
       -- waiting for their headers time out as well
@@ -488,31 +497,101 @@ def handlerSaysSuccess (o : Option Outcome) : Bool := o == some .ok
 
 end
 
+/-! ## HTTP exchanges: what net/http's client does with the registry's answers -/
+
+/-- a scripted answer: status code, and whether it carries a `Location` header -/
+structure Resp where
+  status : Nat
+  loc : Bool
+deriving DecidableEq, Repr
+
+inductive Method where
+  | get | head | post | put | patch
+deriving DecidableEq, Repr
+
+/-- what a request carries: nothing; a body net/http can send again (`GetBody` is set:
+    `bytes.Reader`); a body it cannot (an `*os.File`, an `io.TeeReader`) -/
+inductive BodyKind where
+  | none | rewindable | stream
+deriving DecidableEq, Repr
+
+def is2xx (s : Nat) : Bool := decide (200 ≤ s) && decide (s < 300)
+
+/-- `http.Client.do` / `redirectBehavior`: `none` — the response is handed to the caller as it is
+    (every 1xx/2xx/4xx/5xx, 300/304/305/…, any 3xx without `Location`, and 307/308 when the body
+    cannot be sent again); `some (m, b)` — the client sends another request: 301/302/303 keep
+    GET/HEAD and turn every other method into a body-less GET, 307/308 repeat method and body.
+    `b` is the body kind of the ORIGINAL request of the exchange and stays so through the hops:
+    net/http decides the 307/308 case on `reqs[0]` (measured: a PUT of a file answered 303 becomes
+    a GET, and a 308 answer to that GET is still not followed). -/
+def follow (m : Method) (b : BodyKind) (r : Resp) : Option (Method × BodyKind) :=
+  if !r.loc then none
+  else if r.status = 301 ∨ r.status = 302 ∨ r.status = 303 then
+    (if m = .get ∨ m = .head then some (m, b) else some (.get, b))
+  else if r.status = 307 ∨ r.status = 308 then
+    (if b = .stream then none else some (m, b))
+  else none
+
+/-- One logical request.  `resps` are the registry's answers to the successive physical requests
+    (a missing answer is `200` without `Location`).  Returns the physical requests as
+    (method, status answered) and the response the caller gets — `none` when net/http gives up
+    ("stopped after 10 redirects"; `sent` = requests sent so far). -/
+def exchangeFrom : Nat → Nat → Method → BodyKind → List Resp → List (Method × Nat) × Option Resp
+  | 0, _, m, _, rs => ([(m, (rs.headD ⟨200, false⟩).status)], none)
+  | fuel + 1, sent, m, b, rs =>
+    let r := rs.headD ⟨200, false⟩
+    match follow m b r with
+    | none => ([(m, r.status)], some r)
+    | some (m', b') =>
+      if sent ≥ 10 then ([(m, r.status)], none)
+      else
+        let rest := exchangeFrom fuel (sent + 1) m' b' rs.tail
+        ((m, r.status) :: rest.1, rest.2)
+
+def exchange (m : Method) (b : BodyKind) (rs : List Resp) : List (Method × Nat) × Option Resp :=
+  exchangeFrom 10 1 m b rs
+
+/-- `sendRequest`: the caller sees success iff the final response is 2xx -/
+def exchangeOk (r : Option Resp) : Bool :=
+  match r with
+  | some r => is2xx r.status
+  | none => false
+
 /-! ## Push (new client, `Registry.Push`) -/
 
-/-- what the registry does with one layer of a push -/
-inductive UpOutcome where
-  | postErr      -- POST …/blobs/uploads/?digest= fails
-  | cached       -- POST answers without Location: blob already present
-  | putOk        -- POST gives an upload URL, PUT succeeds
-  | putErr       -- POST gives an upload URL, PUT fails
-deriving DecidableEq, Repr
+/-- the registry's answers for one layer: to the `POST …/blobs/uploads/?digest=` exchange and to
+    the upload `PUT` exchange (body: the blob file, which net/http cannot send twice) -/
+structure UpScript where
+  post : List Resp
+  put : List Resp
+deriving Repr
 
 inductive PushEv where
-  | post (layer : Nat) (ok : Bool)
-  | put (layer : Nat) (ok : Bool)
-  | manifest
+  /-- a request for layer `layer` reached the registry: part of the upload PUT exchange or of the
+      POST exchange, its method, the status it was answered with -/
+  | req (layer : Nat) (upload : Bool) (m : Method) (status : Nat)
+  /-- a request of the manifest PUT exchange -/
+  | man (m : Method) (status : Nat)
 deriving DecidableEq, Repr
 
-def UpOutcome.events (i : Nat) : UpOutcome → List PushEv
-  | .postErr => [.post i false]
-  | .cached => [.post i true]
-  | .putOk => [.post i true, .put i true]
-  | .putErr => [.post i true, .put i false]
-
-def UpOutcome.good : UpOutcome → Bool
-  | .cached | .putOk => true
+def PushEv.isManifest : PushEv → Bool
+  | .man _ _ => true
   | _ => false
+
+/-- the layer goroutine of `Push`: POST; a final 2xx answer without `Location` means the registry
+    has the blob; with `Location`, PUT the file there; the goroutine succeeds iff the final
+    answer of its last exchange is 2xx -/
+def layerRun (i : Nat) (u : UpScript) : List PushEv × Bool :=
+  let p := exchange .post .none u.post
+  let pev := p.1.map fun (m, s) => PushEv.req i false m s
+  match p.2 with
+  | none => (pev, false)
+  | some r =>
+    if !is2xx r.status then (pev, false)
+    else if !r.loc then (pev, true)
+    else
+      let q := exchange .put .stream u.put
+      (pev ++ q.1.map (fun (m, s) => PushEv.req i true m s), exchangeOk q.2)
 
 /-- the layer goroutines' remaining requests; `sched` picks which goroutine's next request
     reaches the registry (an index that is out of range or names a finished goroutine is
@@ -531,13 +610,22 @@ def enumFrom {α} : Nat → List α → List (Nat × α)
   | _, [] => []
   | i, a :: as => (i, a) :: enumFrom (i + 1) as
 
-def pushPending (outs : List UpOutcome) : List (List PushEv) :=
-  (enumFrom 0 outs).map fun (i, o) => o.events i
+def pushPending (ups : List UpScript) : List (List PushEv) :=
+  (enumFrom 0 ups).map fun (i, u) => (layerRun i u).1
 
-/-- request log of `Registry.Push`; `none` if the schedule does not run every goroutine to its end -/
-def pushTrace (outs : List UpOutcome) (sched : List Nat) : Option (List PushEv) :=
-  let r := pushBody (pushPending outs) sched
-  if r.2.all List.isEmpty then some (r.1 ++ (if outs.all (·.good) then [.manifest] else []))
+def layersGood (ups : List UpScript) : Bool := ups.all fun u => (layerRun 0 u).2
+
+/-- the manifest PUT exchange (body: `bytes.Reader`, can be sent again) -/
+def manifestRun (man : List Resp) : List PushEv × Bool :=
+  let x := exchange .put .rewindable man
+  (x.1.map (fun (m, s) => PushEv.man m s), exchangeOk x.2)
+
+/-- request log of `Registry.Push` and whether it returns nil; `none` if the schedule does not
+    run every goroutine to its end -/
+def pushTrace (ups : List UpScript) (sched : List Nat) (man : List Resp) : Option (List PushEv × Bool) :=
+  let r := pushBody (pushPending ups) sched
+  if r.2.all List.isEmpty then
+    (if layersGood ups then some (r.1 ++ (manifestRun man).1, (manifestRun man).2) else some (r.1, false))
   else none
 
 /-! ## Push (legacy, `server.PushModel`): strictly sequential -/
